@@ -69,14 +69,12 @@ theorem valuesEqual_iff_erase_aux (X : Ctx) (hX : X.Coherent) (pf : Nat → Nat)
     ∀ (a b : Val), WF X pf a → WF X pf b → (valuesEqual X a b = true ↔ erase X a = erase X b)
   | .int x, b, _, hb => by
     cases b
-    all_goals try (simp [WF] at hb; done)
     all_goals try (simp [valuesEqual]; done)
     case bin => obtain ⟨bs, _, e⟩ := erase_bin_of_wf X _ hb; simp [valuesEqual, e]
     case tup => obtain ⟨⟨t, ht, _⟩, _⟩ := hb; simp [valuesEqual, erase_tup_of_some X _ _ t ht]
   | .bin x, b, ha, hb => by
     obtain ⟨as, hxa, ea⟩ := erase_bin_of_wf X _ ha
     cases b
-    all_goals try (simp [WF] at hb; done)
     all_goals try (simp [valuesEqual, ea]; done)
     case bin =>
       obtain ⟨bs, hxb, eb⟩ := erase_bin_of_wf X _ hb
@@ -84,7 +82,6 @@ theorem valuesEqual_iff_erase_aux (X : Ctx) (hX : X.Coherent) (pf : Nat → Nat)
     case tup => obtain ⟨⟨t, ht, _⟩, _⟩ := hb; simp [valuesEqual, erase_tup_of_some X _ _ t ht, ea]
   | .ref x, b, _, hb => by
     cases b
-    all_goals try (simp [WF] at hb; done)
     all_goals try (simp [valuesEqual]; done)
     case bin => obtain ⟨bs, _, e⟩ := erase_bin_of_wf X _ hb; simp [valuesEqual, e]
     case tup => obtain ⟨⟨t, ht, _⟩, _⟩ := hb; simp [valuesEqual, erase_tup_of_some X _ _ t ht]
@@ -92,7 +89,6 @@ theorem valuesEqual_iff_erase_aux (X : Ctx) (hX : X.Coherent) (pf : Nat → Nat)
     obtain ⟨⟨t1, ht1, hl1⟩, hwa⟩ := ha
     have e1 := erase_tup_of_some X ta ea t1 ht1
     cases b
-    all_goals try (simp [WF] at hb; done)
     all_goals try (simp [valuesEqual, e1]; done)
     case bin => obtain ⟨bs, _, e⟩ := erase_bin_of_wf X _ hb; simp [valuesEqual, e, e1]
     case tup tb eb =>
@@ -106,7 +102,6 @@ theorem valuesEqual_iff_erase_aux (X : Ctx) (hX : X.Coherent) (pf : Nat → Nat)
       · rintro ⟨h1, h2, h3, h4⟩; exact ⟨⟨h1, h2⟩, h3, h4⟩
   | .fn ia ca, b, ha, hb => by
     cases b
-    all_goals try (simp [WF] at hb; done)
     all_goals try (simp [valuesEqual]; done)
     case bin => obtain ⟨bs, _, e⟩ := erase_bin_of_wf X _ hb; simp [valuesEqual, e]
     case tup => obtain ⟨⟨t, ht, _⟩, _⟩ := hb; simp [valuesEqual, erase_tup_of_some X _ _ t ht]
@@ -115,13 +110,11 @@ theorem valuesEqual_iff_erase_aux (X : Ctx) (hX : X.Coherent) (pf : Nat → Nat)
       simp only [valuesEqual, erase_fn, SV.fn.injEq, Bool.and_eq_true, beq_iff_eq, ← hz]
   | .builtin x, b, _, hb => by
     cases b
-    all_goals try (simp [WF] at hb; done)
     all_goals try (simp [valuesEqual]; done)
     case bin => obtain ⟨bs, _, e⟩ := erase_bin_of_wf X _ hb; simp [valuesEqual, e]
     case tup => obtain ⟨⟨t, ht, _⟩, _⟩ := hb; simp [valuesEqual, erase_tup_of_some X _ _ t ht]
   | .proc p f, b, ha, hb => by
     cases b
-    all_goals try (simp [WF] at hb; done)
     all_goals try (simp [valuesEqual]; done)
     case bin => obtain ⟨bs, _, e⟩ := erase_bin_of_wf X _ hb; simp [valuesEqual, e]
     case tup => obtain ⟨⟨t, ht, _⟩, _⟩ := hb; simp [valuesEqual, erase_tup_of_some X _ _ t ht]
@@ -131,7 +124,11 @@ theorem valuesEqual_iff_erase_aux (X : Ctx) (hX : X.Coherent) (pf : Nat → Nat)
       constructor
       · exact fun h => h.1
       · intro h; exact ⟨h, by rw [h]⟩
-  | .res _ _, _, ha, _ => by simp [WF] at ha
+  | .res r t, b, _, hb => by
+    cases b
+    all_goals try (simp [valuesEqual]; done)
+    case bin => obtain ⟨bs, _, e⟩ := erase_bin_of_wf X _ hb; simp [valuesEqual, e]
+    case tup => obtain ⟨⟨t, ht, _⟩, _⟩ := hb; simp [valuesEqual, erase_tup_of_some X _ _ t ht]
 theorem zipAllEqual_iff_eraseList_aux (X : Ctx) (hX : X.Coherent) (pf : Nat → Nat) :
     ∀ (as bs : ValList), WFList X pf as → WFList X pf bs →
       ((as.length = bs.length ∧ zipAllEqual X as bs = true) ↔ eraseList X as = eraseList X bs)
